@@ -91,3 +91,12 @@ Proof.
   repeat split; [exact Resize_image_and_mask | intros; apply RandomScale_image_and_mask; assumption | exact zoom_blends].
 Qed.
 Print Assumptions C06_resized_masks_copy_voxels.
+
+(* CropAndPad mask path: every voxel of the result is a voxel of the input mask or the mask pad value *)
+From DV.proofs Require Import CropPad.
+From DV.gen Require Import Gen_cls_crops_dicom.
+Theorem C06_CropAndPad_mask_values : forall P keep pm v cp pp pv pvm rr rc rs ip c r s v',
+  fills_in P v -> CropAndPad_apply_to_mask keep pm v cp pp pv pvm rr rc rs ip c r s = Ok v' ->
+  fills_in (fun q => P q \/ q = pvm) v'.
+Proof. exact CropAndPad_mask_values. Qed.
+Print Assumptions C06_CropAndPad_mask_values.
